@@ -413,6 +413,13 @@ func driveC19(c *Ctx) {
 				}
 				continue
 			}
+			if rep == 0 && si <= 2 && err == nil && !r.Panicked {
+				if n, perr := parseOrdered(b); perr == nil {
+					if m := checkOrder(s, n, ""); m != "" {
+						c.Fail("C19/property-order", "order", "under schedule %d (%s): %s", si, sch, m)
+					}
+				}
+			}
 			if d != base {
 				c.Fail("C19/determinism", "Marshal", "schedule %d (%s) repetition %d gave %.200q, the first call under the canonical schedule gave %.200q", si, sch, rep, d, base)
 				break
